@@ -94,6 +94,17 @@ func refDump(sb *strings.Builder, e grammar.Expression, indent string, level int
 	}
 }
 
+// c19Sink receives what the value-receiver writers are given.
+var c19Sink bytes.Buffer
+
+type fwdWriter struct{}
+
+func (fwdWriter) Write(p []byte) (int, error) { return c19Sink.Write(p) }
+
+type taggedWriter struct{ tag int }
+
+func (taggedWriter) Write(p []byte) (int, error) { return c19Sink.Write(p) }
+
 // plainWriter implements nothing but Write and keeps a copy of what it is given.
 type plainWriter struct{ b []byte }
 
@@ -157,6 +168,15 @@ func c19Check(t failer, c *c19Case) grammar.Expression {
 		if under.String() != want.String() {
 			violation(t, "C19", "TestC19_Dump", c, "dump of %s into a bufio.Writer of size %d (indent %q, level %d) differs from the documented rendering\n got:\n%s\n want:\n%s", c.TextQ, sz, c.Indent, c.Level, under.String(), want.String())
 		}
+	}
+	// writers that are VALUES (not pointers), incl. the zero value of their type
+	c19Sink.Reset()
+	ast.ExpressionDump(fwdWriter{}, c.Indent, c.Level)
+	ast.ExpressionDump(taggedWriter{}, c.Indent, c.Level)
+	ast.ExpressionDump(taggedWriter{tag: 1}, c.Indent, c.Level)
+	ast.ExpressionDump(io.Discard, c.Indent, c.Level)
+	if c19Sink.String() != want.String()+want.String()+want.String() {
+		violation(t, "C19", "TestC19_Dump", c, "dump of %s (indent %q, level %d) into writers with value receivers (zero-valued struct{}, zero and non-zero tagged struct): got %q, want the rendering three times: %q", c.TextQ, c.Indent, c.Level, c19Sink.String(), want.String())
 	}
 	var sb strings.Builder
 	var b1, b2 bytes.Buffer
